@@ -379,6 +379,9 @@ def _frame(S):
               z3.ForAll([s], z3.Implies(z3.And(s >= 0, s < N, z3.Not(inM(s))), z3.And(z3.Not(D.pred(s)), surv(s),
                         z3.Select(R['atom_types'].cols[0], dst(s)) == z3.Select(O['atom_types'].cols[0], s)))),
               clause='every atom outside the replaced matches keeps position, type, charge and group')
+        wf = [AM.wf_sizes(R)] + [AM.all_in_range(R[AM.PLURAL[kk]], 0, R['positions'].length, 'wr_' + kk) for kk, _ in AM.KINDS]
+        S.add(I, "%s/result-is-well-formed#%d" % (tag, pi), p.pc, z3.And(*wf),
+              clause='the result is internally consistent: array sizes agree and every term refers to existing atoms (C09 for replace)')
         # type ids keep their meaning: the tables are the old tables followed by the pattern's
         tabs = []
         for t in AC.TABLES:
